@@ -3,7 +3,7 @@
    call on success / failure (except the flagged calls) and show the same
    OS-independent view (IsoView.iso_view) of their trees. *)
 From Avfs Require Import Base PathModel PathSpec PathCleanProofs PathProofs MemFS MemFile World WorldWin IsoView
-  PathEquiv IsoIter IsoSearch IsoCalls.
+  PathEquiv IsoIter IsoSearch IsoCalls DacLemmas.
 Set Implicit Arguments.
 
 Section Run.
@@ -138,7 +138,8 @@ Section Run.
       + split; [split; assumption|intros _; exact Hcd].
       + split; [|reflexivity]. split; [exact F|]. unfold with_view. cbn [w_views].
         apply Forall2_set_nth; [exact Vs|apply vrelR_cwd, V].
-    - cbn [fst snd]. split; [split; assumption|reflexivity].
+    - cbn [fst snd]. rewrite (getwd_admin _ _ (vr_aw (proj1 V))), (getwd_admin _ _ (vr_al (proj1 V))).
+      split; [split; assumption|reflexivity].
     - apply Hr1, (@stat_sim d Hd R); assumption.
     - apply Hr1, (@stat_sim d Hd R); assumption.
     - apply Hr1, (@eval_symlinks_sim d Hd R); assumption.
